@@ -35,6 +35,11 @@ func ifaceMethodKey(recv types.Type, m *types.Func) (string, string) {
 		name = n.Obj().Name()
 	} else if m.Pkg() != nil {
 		pkg = m.Pkg().Path()
+		if _, isIface := recv.Underlying().(*types.Interface); isIface {
+			// an unnamed interface type (interface{ Transaction(...) error }): keyed by the
+			// package that declares the method, as "interface.<Method>"
+			name = "interface"
+		}
 	}
 	return pkg, name + "." + m.Name()
 }
